@@ -120,6 +120,10 @@ def build(scn):
         ii = env.ts(now - 2 * 86400 - 100)
     elif mut == 'future':
         ii = env.ts(now + 2 * 86400 + 100)
+    elif mut == 'stale26h':
+        ii = env.ts(now - 26 * 3600)
+    elif mut == 'future26h':
+        ii = env.ts(now + 26 * 3600)
     elif mut == 'schema':
         ii = None
     key = 'kIdp1' if rtype == 'logout_sp' else 'kSp'
@@ -143,6 +147,8 @@ def build(scn):
                 raise fw.Machinery('reference of the genuine signature not found')
             doc = request_xml(rtype, 'evil1', dest, ii, '', marker='forged',
                               inner='<samlp:Extensions>%s</samlp:Extensions>%s' % (doc, own_sig))
+    if mut in ('version_11', 'version_2'):
+        doc = doc.replace(' Version="2.0"', ' Version="%s"' % ('1.1' if mut == 'version_11' else '2'), 1)
     if mut == 'wrong_root':
         other = 'logout_idp' if rtype != 'logout_idp' and rtype != 'logout_sp' else 'authn'
         doc = request_xml(other, 'req1', dest, ii, '')
@@ -166,7 +172,25 @@ def build(scn):
     return doc, enc
 
 
+TZ = {'UTC': 'UTC0', 'east9': 'JST-9', 'west8': 'PST8'}
+
+
 def replay(case):
+    import time as _time
+    saved = os.environ.get('TZ')
+    os.environ['TZ'] = TZ[case['scn'].get('tz', 'UTC')]
+    _time.tzset()
+    try:
+        return replay_in_zone(case)
+    finally:
+        if saved is None:
+            os.environ.pop('TZ', None)
+        else:
+            os.environ['TZ'] = saved
+        _time.tzset()
+
+
+def replay_in_zone(case):
     scn = case['scn']
     rcv = receiver(scn['rtype'], scn['endpoint'], scn['want'], scn.get('issuerKey', 'known'), scn.get('certOnly', False))
     doc, enc = build(scn)
